@@ -211,6 +211,48 @@ def inst_public_extremum(which, chunks, split_every):
                     unit=f"reductions._common.{which} + reduction() + tree lowering + chunk_{which}/partial_reduce", cost=2 ** n)
 
 
+def inst_public_topk(chunks, k, split_every=None):
+    """the public topk over a 1-d array with concrete chunk sizes and symbolic data, through the real reduction tree and
+    chunk.topk / topk_aggregate on object-array blocks: the result has min(|k|, n) elements -- the advertised shape --, is
+    sorted (descending for k > 0, ascending for k < 0) and every element of the data is either no better than the last one
+    returned or equal to a returned value"""
+    n = sum(chunks)
+
+    def body(E):
+        import dask_array.io._from_array as FAm
+        from symx.graph import Runner
+
+        from . import catalog
+
+        w = catalog.W(E)
+        xs = _sym_data(E, n)
+        cs = (tuple(chunks),)
+        node = w.space.make(FAm.FromArray, leaf("X", (n,)), cs, _symx_attrs=dict(_meta=np.empty((0,)), chunks=cs, _name="x"))
+        blocks, pos = {}, 0
+        for i, c in enumerate(chunks):
+            blocks[("x", i)] = np.array(list(xs[pos:pos + c]), dtype=object)
+            pos += c
+        node.__dict__["_symx_layer"] = blocks
+        coll = w.fn(catalog.NC, "new_collection")(node)
+        out = w.fn("dask_array.routines._topk", "topk")(coll, k, split_every=split_every)
+        m = catalog.stages(E, w, out.expr, {"materialized"})["materialized"]
+        dsk = catalog._layers(m)
+        r = Runner(dsk)
+        parts = [np.asarray(r.get((m._name, j)), dtype=object).ravel() for j in range(len(m.chunks[0]))]
+        res = list(np.concatenate(parts)) if parts else []
+        want = min(abs(k), n)
+        E.ensure("computed-length-is-min(|k|,n)", len(res) == want)
+        E.ensure("advertised-shape-is-the-computed-shape", out.shape == (len(res),) and tuple(map(sum, out.chunks)) == (len(res),))
+        better = (lambda a, b: a >= b) if k > 0 else (lambda a, b: a <= b)
+        E.ensure("sorted", AND(*[better(res[i], res[i + 1]) for i in range(len(res) - 1)]) if len(res) > 1 else True)
+        if res:
+            E.ensure("members-of-the-data", AND(*[OR(*[v == x for x in xs]) for v in res]))
+            E.ensure("nothing-better-left-out", AND(*[OR(better(res[-1], x), *[x == v for v in res]) for x in xs]))
+
+    return Instance(f"public_topk[chunks={chunks},k={k},split_every={split_every}]", body, dict(chunks=chunks, k=k, split_every=split_every),
+                    unit="routines._topk.topk + reduction() + tree lowering + chunk.topk/topk_aggregate", cost=3 ** n)
+
+
 def inst_public_nanarg(which, chunks, nan_at, axis, split_every=None):
     """the public nanargmin/nanargmax along `axis` of a 2-d array with concrete chunk sizes, NaN at the positions `nan_at`
     and symbolic reals elsewhere (object-array blocks through the real graph): per output slice, the answer is the first
@@ -468,6 +510,9 @@ def instances(tier):
     out.append(inst_public_nanarg("nanargmax", ((3,), (2, 2)), nan_at, 1))
     out.append(inst_public_nanarg("nanargmin", ((3,), (2, 2)), nan_at, 1))
     out.append(inst_public_nanarg("nanargmax", ((2, 1), (2,)), {(0, 0)}, 0))
+    out.append(inst_public_topk((2, 2), 2))
+    out.append(inst_public_topk((2, 1), -2, split_every=2))
+    out.append(inst_public_topk((2, 1), 5))  # more than there is
     for which in ("min", "max"):
         out.append(inst_public_extremum(which, (1, 2), 2))
         out.append(inst_public_extremum(which, (1, 1, 0, 0), 2))  # a whole group of the tree is empty
